@@ -250,7 +250,7 @@ class E2ECheck:
         if p == "C06":
             return [("task state transitions", tot.get("transitions", 0), 3000), ("cancellations", tot.get("cancels", 0), 100),
                     ("direct-drive transitions under the chaos policy", tot.get("direct_transitions", 0), 3000),
-                    ("unschedule fall-backs judged (e2e + direct)", tot.get("unschedule_fallbacks_checked", 0) + tot.get("direct_unschedule_fallbacks_checked", 0), 100),
+                    ("unschedule fall-backs judged (e2e + direct)", tot.get("unschedule_fallbacks_checked", 0) + tot.get("direct_unschedule_fallbacks_checked", 0), 40),
                     ("direct-drive re-plans of an already scheduled task", tot.get("direct_replans_of_scheduled_task", 0), 100),
                     ("direct-drive cancellations by the chaos policy", tot.get("direct_cancels", 0), 50)]
         if p == "C07":
